@@ -325,7 +325,38 @@ def _match_pattern(m: Term):
     return None
 
 
+def _norm_to_bytes(args, kwargs):
+    """int.to_bytes(length=1, byteorder="big", *, signed=False) since Python 3.11: the canonical positional spelling (length, byteorder)"""
+    args, kwargs = list(args), dict(kwargs)
+    if len(args) > 2 or set(kwargs) - {"length", "byteorder", "signed"}:
+        return None
+    if (len(args) >= 1 and "length" in kwargs) or (len(args) >= 2 and "byteorder" in kwargs):
+        return None
+    if len(args) < 1:
+        args.append(kwargs.pop("length", C(1)))
+    if len(args) < 2:
+        args.append(kwargs.pop("byteorder", C("big")))
+    return args, kwargs
+
+
 def method_on_symbolic(ex, recv: Term, name: str, args, kwargs, st: State, node, ext_base: Optional[str] = None) -> Term:
+    if name == "to_bytes" and ext_base is None and (len(args) < 2 or "byteorder" in kwargs or "length" in kwargs) and ex.obj(st, recv) is None:
+        nb_ = _norm_to_bytes(args, kwargs)
+        if nb_ is not None:
+            args, kwargs = nb_
+    if name == "format_map" and ext_base is None and len(args) == 1 and not kwargs:
+        # TEMPLATE.format_map(d) with a dictionary whose entries are known one by one is TEMPLATE.format(**d)
+        d_ = ex.obj(st, args[0])
+        if d_ is not None and d_.kind == "dict" and d_.exact and not d_.writes and all(isinstance(k_, str) for k_ in d_.kv):
+            kw_ = dict(d_.kv)
+            if ex.obj(st, recv) is None:
+                try:
+                    rv_ = ex.concrete(recv, st)
+                    if isinstance(rv_, str):
+                        return call_bmeth(ex, recv, "format", [], kw_, st, node)
+                except NotConst:
+                    pass
+            return method_on_symbolic(ex, recv, "format", [], kw_, st, node)
     if name == "groups" and not args and not kwargs and ext_base is None:
         # m.groups() of a match of a known pattern is (m.group(1), ..., m.group(n))
         pat = _match_pattern(recv)
@@ -338,6 +369,17 @@ def method_on_symbolic(ex, recv: Term, name: str, args, kwargs, st: State, node,
                 ng = None
             if ng is not None and ng <= 32:
                 return mk("tuple", tuple(method_on_symbolic(ex, recv, "group", [C(i)], {}, st, node) for i in range(1, ng + 1)))
+    if name == "get" and recv.op == "static" and ext_base is None and 1 <= len(args) <= 2 and not kwargs and is_const(args[0]) and isinstance(ex.statics.get(recv.args[0]), dict):
+        # TABLE.get(k[, default]) of a module / class level table with a known key
+        try:
+            d_ = ex.statics[recv.args[0]]
+            k_ = cval(args[0])
+            if k_ in d_:
+                v_ = d_[k_]
+                return v_ if isinstance(v_, Term) else ex.lift(v_)
+            return args[1] if len(args) == 2 else NONE
+        except TypeError:
+            pass
     if recv.op == "structobj" and ext_base is None:
         fmt = recv.args[0]
         if name == "unpack" and len(args) == 1:
@@ -378,6 +420,14 @@ def _conc_args(ex, args, st):
 
 
 def call_builtin(ex, name: str, args, kwargs, st: State, node) -> Term:
+    if name == "int.from_bytes" and len(args) == 1 and not (set(kwargs) - {"byteorder", "signed"}):
+        # int.from_bytes(bytes, byteorder="big", *, signed=False) since Python 3.11: the canonical spelling names the byte order positionally
+        kwargs = dict(kwargs)
+        args = list(args) + [kwargs.pop("byteorder", C("big"))]
+    if name == "int.to_bytes" and 1 <= len(args) <= 3:
+        nb_ = _norm_to_bytes(args[1:], kwargs)
+        if nb_ is not None:
+            return method_on_symbolic(ex, args[0], "to_bytes", nb_[0], nb_[1], st, node)
     A = args
     n = len(A)
     if name == "slice" and not kwargs and 1 <= n <= 3:
